@@ -1,6 +1,8 @@
 """generator of M-Core-3 functions (descriptors: lean/LlirModel/Drv/Core3Ops.lean): parameters, named / numbered blocks, instructions of the 74 rows
 over locals (also forward references) and Core2 constants, LLVM numbering of the unnamed values; plus text-level mutants for the parser stream."""
+import random
 import re
+import zlib
 from . import gens
 
 BINOPS = ["add", "sub", "mul", "udiv", "sdiv", "urem", "srem", "shl", "lshr", "ashr", "and", "or", "xor"]
@@ -228,9 +230,42 @@ def gen_func(rng, max_blocks=4, sig=None, genv=()):
                 insts[-1]["to"] = "i64" if insts[-1]["row"] == 39 else "p0(i8)"
         rng.shuffle(insts)
         blocks.append({"label": fresh_ident(), "insts": insts})
+    # exception handling and va_arg (rows 83-87): planned from an auxiliary generator seeded by the plan so far, so that the main stream stays
+    # the one it was before these rows existed
+    plan = repr((name, params, ret, [(b["label"], [(i["row"], i["ty"], i["res"]) for i in b["insts"]]) for b in blocks]))
+    aux = random.Random(zlib.crc32(("eh|" + plan).encode()))
+    def aux_ident():
+        if aux.random() < 0.45:
+            return None
+        for _ in range(20):
+            nm = safe_name(aux)
+            if nm not in used_names:
+                used_names.add(nm)
+                return nm
+        return None
+    callable_all = [ty for _, ty in genv if fptr_sig(ty)] + [t for t, _ in params if fptr_sig(t)]
+    LP_TYS = ["s(p0(i8),i32)", "s(p0(i8),i32)", "i32", "p0(i8)"]
+    for b in blocks:
+        if aux.random() < 0.12:
+            b["insts"].insert(0, {"row": 85, "ty": aux.choice(LP_TYS), "res": aux_ident(), "has": True, "aux": True, "cleanup": aux.random() < 0.5,
+                                  "clauses": [aux.choice([(False, "p0(i8)"), (False, "p0(i32)"), (True, "a0(p0(i8))"), (True, "a2(p0(i8))")])
+                                              for _ in range(aux.choice([0, 1, 1, 2, 3]))]})
+        if aux.random() < 0.08:
+            b["insts"].insert(aux.randrange(len(b["insts"]) + 1), {"row": 87, "ty": aux.choice(["p0(i8)", "p0(p0(i8))"]), "to": aux.choice(["i32", "i64", "p0(i8)", "f2"]),
+                                                                    "res": aux_ident(), "has": True, "aux": True})
+        k = aux.random()
+        if callable_all and k < 0.15:
+            ct = aux.choice(callable_all)
+            rt = fptr_sig(ct)[0]
+            b["term"] = {"row": 83 if rt == "v" else 84, "ty": ct, "res": None if rt == "v" else aux_ident(), "has": rt != "v"}
+        elif k < 0.2:
+            b["term"] = {"row": 86, "ty": aux.choice(LP_TYS), "res": None, "has": False}
     # result types
     def res_ty(i):
         r, t = i["row"], i["ty"]
+        if r in (84,): return fptr_sig(t)[0]
+        if r == 85: return t
+        if r == 87: return i["to"]
         if r < 13: return t
         if r < 23:
             m = re.fullmatch(r"([VS])(\d+)\((.*)\)", t)
@@ -267,17 +302,26 @@ def gen_func(rng, max_blocks=4, sig=None, genv=()):
         avail.append((ident, t))
     labels = []
     lazy = set()          # results of getelementptr: their type is computed from their operands (never operands of another getelementptr here)
+    avail_aux = []        # the results of the rows planned by the auxiliary generator (operands of those rows only)
     for b in blocks:
         b["ident"] = ident_of(b["label"])
         labels.append(b["ident"])
-        for i in b["insts"]:
+        for i in b["insts"] + ([b["term"]] if "term" in b else []):
             if i["has"]:
                 i["ident"] = ident_of(i["res"])
-                avail.append((i["ident"], res_ty(i)))
+                (avail_aux if i.get("aux") or i["row"] in (84,) else avail).append((i["ident"], res_ty(i)))
                 if i["row"] == 73:
                     lazy.add(i["ident"])
             else:
                 i["ident"] = "_"
+    def aux_operand(t):
+        g = [a for a, ty in genv if ty == t]
+        if g and aux.random() < 0.5:
+            return "@" + aux.choice(g)
+        c = [a for a, ty in avail + avail_aux if ty == t and a not in lazy]
+        if c and aux.random() < 0.6:
+            return "%" + aux.choice(c)
+        return "#" + const_for(aux, t)
     def operand(t, nolazy=False):
         g = [a for a, ty in genv if ty == t]
         if g and rng.random() < 0.5:
@@ -303,6 +347,12 @@ def gen_func(rng, max_blocks=4, sig=None, genv=()):
                 fl = "F%s!" % rng.choice(["", "", "0"])
             elif 45 <= r <= 50:
                 fl = "F%s!" % ",".join(str(rng.randrange(8)) for _ in range(rng.choice([0, 0, 1, 2, 4])))
+            if r == 85:
+                parts.append("%s:85:T%s:C%d%s" % (i["ident"], t, i["cleanup"], "".join("&%s%s=%s" % ("f" if fl_ else "c", ct, aux_operand(ct)) for fl_, ct in i["clauses"])))
+                continue
+            if r == 87:
+                parts.append("%s:87:P%s=%s!T%s" % (i["ident"], t, aux_operand(t), i["to"]))
+                continue
             if 74 <= r <= 81:
                 rt, pts = fptr_sig(t)
                 args = ("T%s!" % rt if r % 2 == 1 else "") + "V%s!G%s" % (ref_operand(t), "&".join("%s=%s" % (pt, operand(pt)) for pt in pts))
@@ -373,6 +423,23 @@ def gen_func(rng, max_blocks=4, sig=None, genv=()):
             parts.append("_:28:V%s!L%s!L%s" % (operand("i1"), rng.choice(labels), rng.choice(labels)))
         else:
             parts.append("_:29:-")
+        # a switch in place of the terminator drawn above (row 82; every choice from an auxiliary generator seeded by the block so far, so that the
+        # main stream is the one it was before switches existed)
+        aux_sw = random.Random(zlib.crc32(("sw|" + "^".join(parts)).encode()))
+        tm = b.get("term")
+        if tm is not None and tm["row"] == 86:
+            parts[-1] = "_:86:P%s=%s" % (tm["ty"], aux_operand(tm["ty"]))
+        elif tm is not None:
+            rt, pts = fptr_sig(tm["ty"])
+            cands = ["@" + a for a, ty in genv if ty == tm["ty"]] + ["%" + a for a, ty in avail + avail_aux if ty == tm["ty"] and a not in lazy]
+            parts[-1] = "%s:%d:%sV%s!G%s:D%s~%s" % (tm["ident"], tm["row"], "T%s!" % rt if tm["row"] == 84 else "", aux.choice(cands),
+                                                   "&".join("%s=%s" % (pt, aux_operand(pt)) for pt in pts), aux.choice(labels), aux.choice(labels))
+        elif aux_sw.random() < 0.22:
+            ity = aux_sw.choice(["i32", "i8", "i64", "i1", "i33"])
+            cands = [a for a, ty in avail if ty == ity]
+            x = "%" + aux_sw.choice(cands) if cands and aux_sw.random() < 0.7 else "#" + const_for(aux_sw, ity)
+            cases = ["%s=#%s~%s" % (ity, const_for(aux_sw, ity), aux_sw.choice(labels)) for _ in range(aux_sw.choice([0, 1, 1, 2, 3, 5]))]
+            parts[-1] = "_:82:P%s=%s!L%s:S%s" % (ity, x, aux_sw.choice(labels), "&".join(cases) or "-")
         bdesc.append("^".join(parts))
     return ret, hexs(name), "|".join(pdesc) or "-", "/".join(bdesc)
 
@@ -438,4 +505,38 @@ def mutants(rng, text):
         # (`alloca T, i32 7` is the element-count form of alloca, which M-Core-3 does not have: two extra operands there)
         out.append(("extra-operand", with_line(k, lines[k] + (b", i32 7, i32 7" if b"= alloca " in lines[k] else b", i32 7"))))
         out.append(("comma-dropped", with_line(k, lines[k].replace(b", ", b" ", 1))))
+    # switches (auxiliary generator: the draws above stay what they were)
+    aux = random.Random(zlib.crc32(b"swm|" + text))
+    cases = [k for k in body if lines[k].startswith(b"\t\t")]
+    closes = [k for k in body if lines[k] == b"\t]"]
+    if closes:
+        k = aux.choice(closes)
+        out.append(("cases-unclosed", b"\n".join(lines[:k] + lines[k + 1:])))
+        out.append(("cases-closed-twice", b"\n".join(lines[:k + 1] + [lines[k]] + lines[k + 1:])))
+        out.append(("case-appended", b"\n".join(lines[:k] + [b"\t\ti32 77, label %undefined.x"] + lines[k:])))
+    if cases:
+        k = aux.choice(cases)
+        out.append(("case-doubled", b"\n".join(lines[:k + 1] + [lines[k]] + lines[k + 1:])))
+        out.append(("case-deleted", b"\n".join(lines[:k] + lines[k + 1:])))
+        m = re.match(rb"\t\t(\S+) (\S+), label ", lines[k])
+        if m:
+            out.append(("case-value-local", with_line(k, lines[k][:m.start(2)] + b"%undefined.x" + lines[k][m.end(2):])))
+            out.append(("case-outside-switch", b"\n".join(lines[:closes[0] + 1] + [lines[k]] + lines[closes[0] + 1:]) if closes else text))
+    dests = [k for k in body if lines[k].startswith(b"\t\tto label ")]
+    if dests:
+        k = aux.choice(dests)
+        out.append(("dests-deleted", b"\n".join(lines[:k] + lines[k + 1:])))
+        out.append(("dests-doubled", b"\n".join(lines[:k + 1] + [lines[k]] + lines[k + 1:])))
+        out.append(("dests-one", with_line(k, lines[k].split(b" unwind ")[0])))
+    clauses = [k for k in body if lines[k].startswith((b"\t\tcatch ", b"\t\tfilter "))]
+    if clauses:
+        k = aux.choice(clauses)
+        out.append(("clause-kind-swapped", with_line(k, lines[k].replace(b"\t\tcatch ", b"\t\tfilter ") if lines[k].startswith(b"\t\tcatch ") else lines[k].replace(b"\t\tfilter ", b"\t\tcatch "))))
+        out.append(("clause-doubled", b"\n".join(lines[:k + 1] + [lines[k]] + lines[k + 1:])))
+        out.append(("cleanup-after-clause", b"\n".join(lines[:k + 1] + [b"\t\tcleanup"] + lines[k + 1:])))
+        out.append(("clause-untyped", with_line(k, lines[k].split(b" ")[0] + b" null")))
+    pads = [k for k in body if b"= landingpad " in lines[k]]
+    if pads:
+        k = aux.choice(pads)
+        out.append(("cleanup-added", b"\n".join(lines[:k + 1] + [b"\t\tcleanup"] + lines[k + 1:])))
     return out
